@@ -104,7 +104,11 @@ type Sim struct {
 	InFlight       int
 	SwitchInFlight uint64
 	TimeAdvances   uint64
+	DeadlockStacks string
 }
+
+// DebugStacks makes a deadlock capture all goroutine stacks.
+var DebugStacks bool
 
 // S is the active simulation (nil outside Run).
 var S *Sim
@@ -232,6 +236,11 @@ func (s *Sim) pickBlocking() *Task {
 		}
 		if !s.advanceTime() {
 			s.Err = fmt.Errorf("deadlock: no runnable task and no timer; %s", s.describeBlocked())
+			if DebugStacks {
+				buf := make([]byte, 1<<20)
+				buf = buf[:runtime.Stack(buf, true)]
+				s.DeadlockStacks = string(buf)
+			}
 			return nil
 		}
 		if s.Steps > s.cfg.MaxSteps {
